@@ -34,7 +34,7 @@ CLAIMED = {
    note="Outside: membership predicates, conjugacy of gradient_primal, primal-dual scaling matrix, unit_initialization, generalised power cone." + _TB, design="DESIGN.md §3 C14, §6"),
  "C15": dict(text=_KANI + "Decides, bit-precisely for every f64, that SOC/NN/zero/composite step lengths lie in [0, alpha_max], that the NN ratio test is exact, that the backtracking search returns the first accepted candidate (within one factor) for an ARBITRARY membership oracle, and that the NN shift places points strictly inside.",
    note="Outside: numerical tightness of the SOC root; exp/pow membership; PSD." + _TB, design="DESIGN.md §3 C15, §6"),
- "C16": dict(text=_KANI + "Decides the CSC operations against their dense meaning: check_format = canonical predicate, queries, transpose, dropzeros, to_triu, select_rows, triplets, canonicalize, set_entry, concatenation, gemv/symv/quad_form/scalings/sums (exact over GF(13)), norms (f64).",
+ "C16": dict(text=_KANI + "Decides the CSC operations against their dense meaning: check_format = canonical predicate, queries, transpose, dropzeros, to_triu, select_rows, triplets, set_entry, concatenation, gemv/symv/quad_form/scalings/sums (exact over GF(13)), norms (f64).",
    note="Shapes <= 3x3/4x2. Symbolic patterns where the result size is data independent, enumerated patterns with symbolic values otherwise." + _TB, design="DESIGN.md §3 C16, §6"),
  "C17": dict(text=_KANI + "Decides ONLY the hash-free units of the chordal analysis: union-find (inductively: one query/union from an arbitrary valid state on 8 elements), Kruskal spanning forest on weighted clique graphs, graph connection, aggregate sparsity mask.",
    note="Clique-tree validity, running intersection, coverage, merge strategies are IndexSet/HashMap based and NOT decided." + _TB, design="DESIGN.md §3 C17, §6"),
